@@ -12,7 +12,7 @@ EXHAUSTIVE = {"quick": "all 700 datasets (3 elements, <=2 rankings) x 5 schemes;
                        "over subsets of 4 elements",
               "thorough": "all 18275 datasets (<=3 rankings) + all 22648 datasets over 4 elements, rotating schemes; "
                           "cascade instances"}
-ASSUMPTIONS = ["optimal consensus set by brute force (<= 5 elements)", "consistent_with runs under a 5 s watchdog"]
+ASSUMPTIONS = ["optimal consensus set by brute force (<= 5 elements)", "consistent_with runs under a 50 s watchdog"]
 SCHEMES = [ac.P_UNI5, ac.P_UNI1, ac.P_IND1, ac.P_PSE5, ac.P_EXT]
 
 
